@@ -743,6 +743,9 @@ class HealProfile(FsmProfile):
         cfg["connect_latency"] = rng.pick([0.0, 0.1, 1.0])
         cfg["dead_old_connection"] = rng.chance(0.3)
         cfg["late_cdone"] = rng.chance(0.3)
+        if rng.chance(0.08):
+            # an IPv6 peering (local and remote address); the BGP identifier cannot be derived from the address
+            cfg["local_addr"], cfg["remote_addr"] = "2001:db8::1", "2001:db8::2"
         if rng.chance(0.35):
             # the application handler raises (storage full) now and then during the adversarial phase
             cfg["p_hfail"] = rng.pick([0.03, 0.08, 0.2])
@@ -767,6 +770,7 @@ STAT_KEYS = {rp.OPEN: "Opens", rp.UPDATE: "Updates", rp.NOTIFICATION: "Notificat
 
 class StatsCtx(FsmCtx):
     escape_is_violation = False
+    exceptions_end_run = False
     prop = "C18"
     soft = True
     regime_exit = False
